@@ -77,7 +77,7 @@ def run(tier, seed, replay=None):
             mag = max(1e-300, max(abs(x) for v in (o["fn"], o["fa"], o["fb"], o["fc"]) for x in v))
             model = MODEL[variant]
             adhesion = model == 0 and not exact        # the spring model's adhesion amplitude is not a lattice quantity: only its direction is checked
-            recs.append({"k": c["k"], "p": c["p"], "a": c["a"], "b": c["b"], "c": c["c"], "t1": c["t1"], "t2": c["t2"], "cut2": c["cut2"], "model": model,
+            recs.append({"k": c["k"], "p": c["p"], "a": c["a"], "b": c["b"], "c": c["c"], "t1": c["t1"], "t2": c["t2"], "cut2": c["cut2"], "cut2a": (4 * c["cut2"] if model == 0 else c["cut2"]), "model": model,
                          "fn": fn, "fa": fa, "fb": fb, "fc": fc, "exact": exact or adhesion, "face_ok": o["face_ok"], "coupled": o["coupled"],
                          "sum_zero": max(abs(x) for x in s) <= 1e-9 * mag, "others_zero": o["others"] == 0, "apex_zero": all(x == 0 for x in o["fapex"])})
         n, bad = vlib.tlc_validate_records(SPEC, "ContactTrace", "ContactTrace.cfg", recs, chunk=1500, par=4, workers=4)
